@@ -23,6 +23,7 @@ def families():
         fam('two1w', ['u1', 'u2'], [1, 2], [1, 1], 2),
         fam('one2w', ['u1'], [1, 2], [1, 2], 2),
         fam('late1w', ['u1'], [1, 2], [1, 1], 2, late=[2]),
+        fam('late2w', ['u1'], [1, 2], [1, 2], 2, late=[1]),
     ]
     big = [
         fam('two2w', ['u1', 'u2'], [1, 2, 3], [1, 1, 2], 1),
@@ -102,7 +103,7 @@ def run(ctx, prop):
     def add_run(f, sched, replies, finish, why):
         rid = len(runs) + 1
         runs.append(dict(id=rid, family=f['name'], uploaders=f['uploaders'], files=f['files'], weekOf=f['weekof'], weeks=f['weeks'], maxRuns=f['maxruns'], late=f['late'],
-                         schedule=sched, replies=replies, finish=finish, seed=rng.randrange(1 << 30), extras=False))
+                         schedule=sched, replies=replies, finish=finish, seed=rng.randrange(1 << 30), extras=False, dirDate=(why.startswith('late-after') or (rid % 5 == 0))))
         runfam[rid] = (f, why)
 
     oneshot = ['OneShot(i, W) == IF W /\\ TLCGet(i) = 0 THEN TLCSet(i, 1) /\\ FALSE ELSE TRUE', 'ASSUME \\A i \\in 1..40 : TLCSet(i, 0)',
